@@ -1,12 +1,18 @@
 Bind/Model.vo Bind/Model.glob Bind/Model.v.beautified Bind/Model.required_vo: Bind/Model.v 
 Bind/Model.vio: Bind/Model.v 
 Bind/Model.vos Bind/Model.vok Bind/Model.required_vos: Bind/Model.v 
+Blocks/Model.vo Blocks/Model.glob Blocks/Model.v.beautified Blocks/Model.required_vo: Blocks/Model.v Generated/C16_OpcodeFlags.vo
+Blocks/Model.vio: Blocks/Model.v Generated/C16_OpcodeFlags.vio
+Blocks/Model.vos Blocks/Model.vok Blocks/Model.required_vos: Blocks/Model.v Generated/C16_OpcodeFlags.vos
 Booleq/Model.vo Booleq/Model.glob Booleq/Model.v.beautified Booleq/Model.required_vo: Booleq/Model.v 
 Booleq/Model.vio: Booleq/Model.v 
 Booleq/Model.vos Booleq/Model.vok Booleq/Model.required_vos: Booleq/Model.v 
 Booleq/Proofs.vo Booleq/Proofs.glob Booleq/Proofs.v.beautified Booleq/Proofs.required_vo: Booleq/Proofs.v Booleq/Model.vo
 Booleq/Proofs.vio: Booleq/Proofs.v Booleq/Model.vio
 Booleq/Proofs.vos Booleq/Proofs.vok Booleq/Proofs.required_vos: Booleq/Proofs.v Booleq/Model.vos
+Canon/Model.vo Canon/Model.glob Canon/Model.v.beautified Canon/Model.required_vo: Canon/Model.v 
+Canon/Model.vio: Canon/Model.v 
+Canon/Model.vos Canon/Model.vok Canon/Model.required_vos: Canon/Model.v 
 Directors/Cases.vo Directors/Cases.glob Directors/Cases.v.beautified Directors/Cases.required_vo: Directors/Cases.v Directors/Model.vo
 Directors/Cases.vio: Directors/Cases.v Directors/Model.vio
 Directors/Cases.vos Directors/Cases.vok Directors/Cases.required_vos: Directors/Cases.v Directors/Model.vos
@@ -16,6 +22,9 @@ Directors/Model.vos Directors/Model.vok Directors/Model.required_vos: Directors/
 Extract/ExtractBind.vo Extract/ExtractBind.glob Extract/ExtractBind.v.beautified Extract/ExtractBind.required_vo: Extract/ExtractBind.v Bind/Model.vo
 Extract/ExtractBind.vio: Extract/ExtractBind.v Bind/Model.vio
 Extract/ExtractBind.vos Extract/ExtractBind.vok Extract/ExtractBind.required_vos: Extract/ExtractBind.v Bind/Model.vos
+Extract/ExtractBlocks.vo Extract/ExtractBlocks.glob Extract/ExtractBlocks.v.beautified Extract/ExtractBlocks.required_vo: Extract/ExtractBlocks.v Blocks/Model.vo
+Extract/ExtractBlocks.vio: Extract/ExtractBlocks.v Blocks/Model.vio
+Extract/ExtractBlocks.vos Extract/ExtractBlocks.vok Extract/ExtractBlocks.required_vos: Extract/ExtractBlocks.v Blocks/Model.vos
 Extract/ExtractPlan.vo Extract/ExtractPlan.glob Extract/ExtractPlan.v.beautified Extract/ExtractPlan.required_vo: Extract/ExtractPlan.v Plan/Model.vo
 Extract/ExtractPlan.vio: Extract/ExtractPlan.v Plan/Model.vio
 Extract/ExtractPlan.vos Extract/ExtractPlan.vok Extract/ExtractPlan.required_vos: Extract/ExtractPlan.v Plan/Model.vos
@@ -37,15 +46,24 @@ Generated/C03_ErrorClasses.vos Generated/C03_ErrorClasses.vok Generated/C03_Erro
 Generated/C08_Invalidation.vo Generated/C08_Invalidation.glob Generated/C08_Invalidation.v.beautified Generated/C08_Invalidation.required_vo: Generated/C08_Invalidation.v Typegraph/History.vo
 Generated/C08_Invalidation.vio: Generated/C08_Invalidation.v Typegraph/History.vio
 Generated/C08_Invalidation.vos Generated/C08_Invalidation.vok Generated/C08_Invalidation.required_vos: Generated/C08_Invalidation.v Typegraph/History.vos
+Generated/C11_Passes.vo Generated/C11_Passes.glob Generated/C11_Passes.v.beautified Generated/C11_Passes.required_vo: Generated/C11_Passes.v Opt/Syntax.vo
+Generated/C11_Passes.vio: Generated/C11_Passes.v Opt/Syntax.vio
+Generated/C11_Passes.vos Generated/C11_Passes.vok Generated/C11_Passes.required_vos: Generated/C11_Passes.v Opt/Syntax.vos
 Generated/C16_OpcodeFlags.vo Generated/C16_OpcodeFlags.glob Generated/C16_OpcodeFlags.v.beautified Generated/C16_OpcodeFlags.required_vo: Generated/C16_OpcodeFlags.v 
 Generated/C16_OpcodeFlags.vio: Generated/C16_OpcodeFlags.v 
 Generated/C16_OpcodeFlags.vos Generated/C16_OpcodeFlags.vok Generated/C16_OpcodeFlags.required_vos: Generated/C16_OpcodeFlags.v 
+Merge/Model.vo Merge/Model.glob Merge/Model.v.beautified Merge/Model.required_vo: Merge/Model.v 
+Merge/Model.vio: Merge/Model.v 
+Merge/Model.vos Merge/Model.vok Merge/Model.required_vos: Merge/Model.v 
 Mro/Model.vo Mro/Model.glob Mro/Model.v.beautified Mro/Model.required_vo: Mro/Model.v 
 Mro/Model.vio: Mro/Model.v 
 Mro/Model.vos Mro/Model.vok Mro/Model.required_vos: Mro/Model.v 
 Mro/Proofs.vo Mro/Proofs.glob Mro/Proofs.v.beautified Mro/Proofs.required_vo: Mro/Proofs.v Mro/Model.vo
 Mro/Proofs.vio: Mro/Proofs.v Mro/Model.vio
 Mro/Proofs.vos Mro/Proofs.vok Mro/Proofs.required_vos: Mro/Proofs.v Mro/Model.vos
+Opt/Model.vo Opt/Model.glob Opt/Model.v.beautified Opt/Model.required_vo: Opt/Model.v Opt/Syntax.vo Generated/C11_Passes.vo
+Opt/Model.vio: Opt/Model.v Opt/Syntax.vio Generated/C11_Passes.vio
+Opt/Model.vos Opt/Model.vok Opt/Model.required_vos: Opt/Model.v Opt/Syntax.vos Generated/C11_Passes.vos
 Opt/Syntax.vo Opt/Syntax.glob Opt/Syntax.v.beautified Opt/Syntax.required_vo: Opt/Syntax.v 
 Opt/Syntax.vio: Opt/Syntax.v 
 Opt/Syntax.vos Opt/Syntax.vok Opt/Syntax.required_vos: Opt/Syntax.v 
